@@ -113,6 +113,73 @@ func MatchSegments(pat, path []string) bool {
 	return MatchSegment(pat[0], path[0]) && MatchSegments(pat[1:], path[1:])
 }
 
+// matchWholeNegSlash matches a "**"-free pattern against a whole slash path
+// the way the segment matcher does ('*' and '?' never match '/', a positive
+// class never matches '/') with ONE deliberate deviation: a NEGATED character
+// class may match the '/' separator. It is not part of the reference; it
+// models one specific, separately reported defect (see MRef.NegClassSlash).
+func matchWholeNegSlash(p, s []rune) bool {
+	for len(p) > 0 {
+		switch p[0] {
+		case '*':
+			for len(p) > 0 && p[0] == '*' {
+				p = p[1:]
+			}
+			for i := 0; ; i++ {
+				if matchWholeNegSlash(p, s[i:]) {
+					return true
+				}
+				if i >= len(s) || s[i] == '/' {
+					return false
+				}
+			}
+		case '?':
+			if len(s) == 0 || s[0] == '/' {
+				return false
+			}
+			p, s = p[1:], s[1:]
+		case '[':
+			end := -1
+			for i := 1; i < len(p); i++ {
+				if p[i] == ']' && i > 1 {
+					end = i
+					break
+				}
+			}
+			if end < 0 || len(s) == 0 {
+				return false
+			}
+			body := p[1:end]
+			neg := false
+			if len(body) > 0 && (body[0] == '^' || body[0] == '!') {
+				neg = true
+				body = body[1:]
+			}
+			in := false
+			for i := 0; i < len(body); i++ {
+				if i+2 < len(body) && body[i+1] == '-' {
+					if body[i] <= s[0] && s[0] <= body[i+2] {
+						in = true
+					}
+					i += 2
+				} else if body[i] == s[0] {
+					in = true
+				}
+			}
+			if in == neg {
+				return false
+			}
+			p, s = p[end+1:], s[1:]
+		default:
+			if len(s) == 0 || p[0] != s[0] {
+				return false
+			}
+			p, s = p[1:], s[1:]
+		}
+	}
+	return len(s) == 0
+}
+
 // ---------------------------------------------------------------------------
 // Reference for Mutagen-style ignores, written from the documented semantics:
 //
@@ -177,6 +244,14 @@ func lastComponent(path string) string {
 // meaningful for "**" patterns: whether the independent segment matcher
 // (with "**" = zero or more segments) gives the same answer as doublestar.
 func (p MPattern) Matches(path string, dir bool) (match bool, ownAgrees bool) {
+	return p.matches(path, dir, false)
+}
+
+// matches implements Matches. With negSlash (classifier only, see
+// MRef.NegClassSlash) a "**"-free pattern is matched as a whole-string glob in
+// which a negated class may consume '/'; a slash-less pattern is, as
+// documented, tried on the whole path as well as on the final component.
+func (p MPattern) matches(path string, dir bool, negSlash bool) (match bool, ownAgrees bool) {
 	if p.DirOnly && !dir {
 		return false, true
 	}
@@ -190,6 +265,13 @@ func (p MPattern) Matches(path string, dir bool) (match bool, ownAgrees bool) {
 		own = p.Body == "**" || MatchSegment(p.Body, target)
 	}
 	if !p.DoubleStar {
+		if negSlash {
+			m := matchWholeNegSlash([]rune(p.Body), []rune(path))
+			if !m && !p.Anchored {
+				m = matchWholeNegSlash([]rune(p.Body), []rune(target))
+			}
+			return m, true
+		}
 		return own, true
 	}
 	ds, err := doublestar.Match(p.Body, target)
@@ -203,6 +285,15 @@ func (p MPattern) Matches(path string, dir bool) (match bool, ownAgrees bool) {
 type MRef struct {
 	Patterns  []MPattern
 	IgnoreVCS bool
+	// NegClassSlash switches the harness's own single-pattern matcher to a
+	// variant in which a NEGATED character class ([!..] or [^..]) may match
+	// the '/' separator — and changes nothing else. It is NOT the reference:
+	// it is the classifier for one specific, already reported defect (the
+	// glob library used by the code under test behaves that way), so that this
+	// defect gets its own signature: a disagreement carries that signature
+	// only if the list holds a negated class AND the disagreement disappears
+	// under this switch.
+	NegClassSlash bool
 }
 
 // NewMRef parses the list.
@@ -238,7 +329,7 @@ func (m *MRef) Decide(path string, dir bool) Verdict {
 		}
 	}
 	for i, p := range m.Patterns {
-		ok, own := p.Matches(path, dir)
+		ok, own := p.matches(path, dir, m.NegClassSlash)
 		if !own {
 			v.OwnOK = false
 		}
